@@ -183,7 +183,7 @@ func (r *runner) run() int {
 		fn := r.prog.Harnesses[n]
 		// wall-clock budget per harness (a change to the code under check can make the path count explode):
 		// what is not explored by then is reported as bound-exceeded, never as held
-		budget := 8 * time.Minute
+		budget := 5 * time.Minute
 		if cfg.Thorough {
 			budget = 75 * time.Minute
 		}
